@@ -184,6 +184,40 @@ class Analysis:
                             break
         return eff
 
+    def reads_of(self, cls, fn, depth=0, seen=None):
+        """attributes of `self` the method loads (following self.helper() and super().m() like effects_of); method names
+        are not attributes; an in-place update (`self.a.append`, `self.a += ..`) loads `a` too"""
+        seen = seen if seen is not None else set()
+        if (cls, fn.name) in seen or depth > 5:
+            return []
+        seen.add((cls, fn.name))
+        out = []
+        for n in ast.walk(fn):
+            if isinstance(n, ast.Attribute) and isinstance(n.value, ast.Name) and n.value.id == "self":
+                c2, f2 = self.find_method(cls, n.attr)
+                if f2 is not None:
+                    is_prop = any(ast.unparse(d) == "property" for d in f2.decorator_list)
+                    if not self.is_builder(f2) or is_prop:
+                        out += self.reads_of(cls, f2, depth + 1, seen)
+                elif isinstance(n.ctx, ast.Load) and n.attr not in out:
+                    out.append(n.attr)
+            elif isinstance(n, ast.AugAssign):
+                r, p = self.root_path(n.target)
+                if r == "self" and p and p[0] not in out:
+                    out.append(p[0])
+            elif isinstance(n, ast.Call) and isinstance(n.func, ast.Attribute) and isinstance(n.func.value, ast.Call) \
+                    and ast.unparse(n.func.value.func) == "super":
+                m = n.func.attr
+                for c in self.mro(cls)[1:]:
+                    if m in self.classes[c]["methods"]:
+                        out += self.reads_of(c, self.classes[c]["methods"][m], depth + 1, seen)
+                        break
+        res = []
+        for a in out:
+            if a not in res:
+                res.append(a)
+        return res
+
     def set_iterations(self, cls, fn):
         """attributes initialised as sets that the method iterates (for / comprehension / join / list())"""
         cont = self.containers(cls)
@@ -249,7 +283,8 @@ class Analysis:
                 classes.append({"cls": cls, "containers": sorted(cont), "sets": sorted(k for k, v in cont.items() if v == "set"),
                                 "recopied": sorted(rc)})
             for m, (c, f) in sorted(bm.items()):
-                builders.append({"cls": cls, "method": m, "defined_in": c, "effects": self.effects_of(cls, f)})
+                builders.append({"cls": cls, "method": m, "defined_in": c, "effects": self.effects_of(cls, f),
+                                 "reads": self.reads_of(cls, f)})
             for m, (c, f) in sorted(om.items()):
                 observers.append({"cls": cls, "method": m, "effects": [e for e in self.effects_of(cls, f)],
                                   "set_iter": self.set_iterations(cls, f)})
@@ -259,7 +294,8 @@ class Analysis:
             for m in HELPERS:
                 c, f = self.find_method(cls, m)
                 if f is not None:
-                    helpers.append({"cls": cls, "method": m, "defined_in": c, "effects": self.effects_of(cls, f)})
+                    helpers.append({"cls": cls, "method": m, "defined_in": c, "effects": self.effects_of(cls, f),
+                                    "reads": self.reads_of(cls, f)})
         return {"classes": classes, "builders": builders, "observers": observers, "replace": self.replace_table_table(),
                 "helpers": helpers}
 
@@ -301,6 +337,12 @@ def render(rep):
     w("/-- (class, helper reached through another object — `do_join` via the Joiner —, effects in source order) -/")
     w("def helperEffects : List (Str × Str × List Eff) := [")
     w(",\n".join("  (%s, %s, %s)" % (lean_s(b["cls"]), lean_s(b["method"]), effs(b["effects"])) for b in rep["helpers"]) + "]")
+    w("")
+    w("/-- (class, @builder method or helper, attributes of `self` it loads) — query-builder classes only -/")
+    w("def builderReads : List (Str × Str × List Str) := [")
+    w(",\n".join("  (%s, %s, [%s])" % (lean_s(b["cls"]), lean_s(b["method"]), ", ".join(lean_s(x) for x in b["reads"]))
+                 for b in rep["builders"] + rep["helpers"] if b["cls"].endswith("QueryBuilder") and "Create" not in b["cls"]
+                 and "Drop" not in b["cls"]) + "]")
     w("")
     w("/-- (class, observation method, effects, set-typed attributes it iterates) -/")
     w("def observerEffects : List (Str × Str × List Eff × List Str) := [")
